@@ -52,6 +52,7 @@ fn junk_menu(t: &Task, sibling_delta: u16) -> Vec<JunkKind> {
         v.push(JunkKind::ForeignEchoReply(sibling_delta));
     } else {
         v.push(JunkKind::ForeignTarget);
+        v.push(JunkKind::ForeignTargetViaTarget);
         v.push(JunkKind::ForeignPort);
         if t.cell.ports == crate::drive::Ports::FixedBoth {
             v.push(JunkKind::ForeignPortDest);
@@ -369,7 +370,7 @@ pub fn run(args: &Args) -> i32 {
     rep.set("horizon_hits", json!(a.stats.horizon_hits));
     rep.set("determinism_replays", json!(a.replays));
     rep.observe("junk_deliveries_by_kind", json!(a.by_kind));
-    rep.set("rule", json!(format!("14 base cells x topologies {{L2,L3,silent-mid}} (+ every privileged cell with a pinned destination port or both ports pinned, incl. a foreign response differing in the second pinned port only) x CLI-assigned identifier pairs (asked of the real start_tracers for process ids {{0,1,2,0x1234,65533,65534}} x 3 targets - they must be pairwise distinct -, + the fixed pairs (1,0),(0,1),(2,1),(3,2),(65534,65533),(65533,65534)), 3 rounds: all executions with <= {bound} deviations where a deviation is a delay, a loss or the injection of one junk datagram (duplicate of a delivered response; a second answer from the target's address to a probe a router has already answered; late response to a previous-round probe; sibling tracer's Time Exceeded / Echo Reply; other target; other fixed port; never-sent sequences: next unissued, round_start-1, +300, +511, +512; + per cell a path with transient socket failures offered at every send/bind/connect, where the junk names the sequence of the Failed / Skipped slot); plus 254-probe rounds across sequence wrap-around with <= 1 deviation. Oracle: re-run with every junk datagram replaced by an ICMP Echo Request (discarded at the lowest level) - published rounds, timestamps and final snapshot must be identical. distinct_nontrivial = executions containing >= 1 junk delivery (each compared with its inert twin)")));
+    rep.set("rule", json!(format!("14 base cells x topologies {{L2,L3,silent-mid}} (+ every privileged cell with a pinned destination port or both ports pinned, incl. a foreign response differing in the second pinned port only) x CLI-assigned identifier pairs (asked of the real start_tracers for process ids {{0,1,2,0x1234,65533,65534}} x 3 targets - they must be pairwise distinct -, + the fixed pairs (1,0),(0,1),(2,1),(3,2),(65534,65533),(65533,65534)), 3 rounds: all executions with <= {bound} deviations where a deviation is a delay, a loss or the injection of one junk datagram (duplicate of a delivered response; a second answer from the target's address to a probe a router has already answered; late response to a previous-round probe; sibling tracer's Time Exceeded / Echo Reply; other target - reported by a router or by this tracer's own target -; other fixed port; never-sent sequences: next unissued, round_start-1, +300, +511, +512; + per cell a path with transient socket failures offered at every send/bind/connect, where the junk names the sequence of the Failed / Skipped slot); plus 254-probe rounds across sequence wrap-around with <= 1 deviation. Oracle: re-run with every junk datagram replaced by an ICMP Echo Request (discarded at the lowest level) - published rounds, timestamps and final snapshot must be identical. distinct_nontrivial = executions containing >= 1 junk delivery (each compared with its inert twin)")));
     for s in a.samples {
         rep.sample(s);
     }
